@@ -137,6 +137,16 @@ class BasicContiguousElement
 
     [[nodiscard]] constexpr allocator_type get_allocator() const noexcept { return memory_.get_allocator(); }
 
+#ifdef TRADIAS_CONTIGUOUS_VERIF
+    // verification hooks (read-only observers of the element's storage bookkeeping)
+    [[nodiscard]] std::size_t verif_memory_size_in_bytes() const noexcept
+    {
+        return memory_.size() * sizeof(StorageElementType);
+    }
+    [[nodiscard]] const void* verif_memory() const noexcept { return memory_.get(); }
+    [[nodiscard]] std::size_t verif_size_in_bytes() const noexcept { return reference_.size_in_bytes(); }
+#endif
+
     friend constexpr void swap(BasicContiguousElement& lhs, BasicContiguousElement& rhs) noexcept
     {
         detail::swap(lhs.memory_, rhs.memory_);
